@@ -53,11 +53,21 @@ def api(case: dict) -> dict:
             items.append(it)
             continue
         yielded = []
+        forest: list = []
         status = "ok"
+        # record the unfiltered forest of THIS parse (the forest of an ambiguous grammar may depend on the iteration
+        # order of the sets `predict` builds, so a second parse is not the same object); the wrapper only observes
+        orig = fan.grammar.parse_forest
+
+        def recording(*a, **k):
+            for tr in orig(*a, **k):
+                forest.append(tr)
+                yield tr
+        fan.grammar.parse_forest = recording
         try:
             for t in fan.parse(word):
                 yielded.append(t)
-                if len(yielded) >= max_trees:
+                if len(yielded) >= max_trees or len(forest) >= 4 * max_trees:
                     status = "truncated"
                     break
         except Exception as e:  # noqa
@@ -66,21 +76,9 @@ def api(case: dict) -> dict:
         try:
             it["yielded"] = [icons.tree_json(t) for t in yielded]
             it["obs"] = [eio.observe_tree(t, word, case.get("start", "<start>")) for t in yielded]
+            it["forest"] = [icons.tree_json(t) for t in forest]
         except ValueError as e:
             it["status"] = f"not_modelled:{e}"
-            items.append(it)
-            continue
-        # the unfiltered forest, on an object of its own
-        try:
-            fan2 = Fandango(case["spec"], use_stdlib=False, use_cache=False, logging_level=logging.CRITICAL)
-            forest = []
-            for t in fan2.grammar.parse_forest(word, start=case.get("start", "<start>")):
-                forest.append(t)
-                if len(forest) >= max_trees:
-                    break
-            it["forest"] = [icons.tree_json(t) for t in forest]
-        except Exception as e:  # noqa
-            it["forest_exc"] = type(e).__name__
         items.append(it)
     return {"items": items}
 
